@@ -392,9 +392,10 @@ func b64(b []byte) string {
 var recBoundary = ev.New("C18", "boundaries-exhaustive",
 	"enumeration: mtu 1279/1280/1281/omitted x every protocol with UDP x server/client; natTimeout 59s/60s/61s/1s(+59.999999999s, 60.000000001s, 1ns) x protocol "+
 		"x listener array/legacy natTimeoutSec; relay/recv batch size -1/0/1/1024/1025; send channel capacity 0/1/63/64/65; PSK, iPSK and uPSK length -1/0/+1 per method; "+
-		"then every injected violation (all key-length, natTimeout, MTU, dangling-reference, duplicate-name, range mutations) applied one at a time to generated base "+
-		"worlds (25 in quick, 150 in thorough). Expected accept/refuse comes from the table and, independently, from the validator; both must agree with Manager(). Non-trivial: every case.").
-	Require("table:accept", "table:refuse", "inject:key-length", "inject:nat-timeout", "inject:mtu", "inject:dangling", "inject:duplicate", "inject:range")
+		"then every injected violation (all key-length, natTimeout, MTU, dangling-reference, duplicate-name, range mutations) applied one at a time to 7 hand-built "+
+		"base worlds and to generated base worlds (25 in quick, 150 in thorough). Expected accept/refuse comes from the table and, independently, from the validator; both must agree with Manager(). Non-trivial: every case.").
+	Require("table:accept", "table:refuse", "inject:key-length", "inject:nat-timeout", "inject:mtu", "inject:dangling", "inject:duplicate", "inject:duplicate-set",
+		"inject:range", "hand-built-base")
 
 func TestBoundariesExhaustive(t *testing.T) {
 	recBoundary.Exhaustive(true)
@@ -432,24 +433,38 @@ func TestBoundariesExhaustive(t *testing.T) {
 		recBoundary.Case("table/"+bc.name, true, label)
 	}
 
-	// every injectable violation, one at a time, on fixed generated worlds
+	// every injectable violation, one at a time: first on hand-built worlds (no rapid involved:
+	// plain regression for duplicate set names, dangling references, ...), then on generated ones
 	gen := rapid.Custom(func(rt *rapid.T) *world { return genWorld(rt) })
 	nWorlds := envInt("VERIF_C18_BASE_WORLDS", 25)
+	type baseMaker struct {
+		name string
+		mk   func() *world
+	}
+	bases := []baseMaker{{"full", fullWorld}}
+	for _, p := range []string{"2022-blake3-aes-128-gcm", "2022-blake3-aes-256-gcm", "socks5"} {
+		for _, legacy := range []bool{false, true} {
+			bases = append(bases, baseMaker{fmt.Sprintf("base-%s-legacy=%v", p, legacy), func() *world { return baseWorld(p, legacy) }})
+		}
+	}
 	for wi := range nWorlds {
-		base := gen.Example(wi + 1)
-		if len(base.validate()) != 0 {
-			t.Fatalf("harness error: generated world %d is not valid: %v", wi, base.validate())
+		bases = append(bases, baseMaker{fmt.Sprintf("gen%d", wi), func() *world { return gen.Example(wi + 1) }})
+	}
+	for _, bm := range bases {
+		base := bm.mk()
+		if vs := base.validate(); len(vs) != 0 {
+			t.Fatalf("harness error: base world %s is not valid: %v", bm.name, vs)
 		}
 		n := len(base.mutations(nil))
 		for mi := range n {
-			w := gen.Example(wi + 1)
+			w := bm.mk()
 			m := w.mutations(nil)[mi]
 			m.apply()
 			vs := w.validate()
 			if len(vs) == 0 {
 				t.Fatalf("harness error: mutation %s/%s not seen by the validator", m.kind, m.label)
 			}
-			key := fmt.Sprintf("inject/%d/%s/%s", wi, m.kind, m.label)
+			key := fmt.Sprintf("inject/%s/%s/%s", bm.name, m.kind, m.label)
 			text := w.emit(-1, false)
 			l := loadText(text, w.files, w.nports, false)
 			if l.err == nil {
@@ -457,14 +472,18 @@ func TestBoundariesExhaustive(t *testing.T) {
 					if ks, ok := known(sigDupSet); ok {
 						recBoundary.KnownHit(ks)
 					} else {
-						failures = append(failures, fmt.Sprintf("SIG=C18/%s world %d %s: %v", sigDupSet, wi, m.label, vs))
+						failures = append(failures, fmt.Sprintf("SIG=C18/%s world %s %s: %v", sigDupSet, bm.name, m.label, vs))
 					}
 				} else {
-					failures = append(failures, fmt.Sprintf("SIG=C18/accepted-with-violation/%s world %d mutation %s: %v\n%s", vs[0].kind, wi, m.label, vs, text))
+					failures = append(failures, fmt.Sprintf("SIG=C18/accepted-with-violation/%s world %s mutation %s: %v\n%s", vs[0].kind, bm.name, m.label, vs, text))
 				}
 			}
 			l.close()
-			recBoundary.Case(key, true, "inject:"+m.kind, "inject:"+m.kind+"/"+m.label)
+			labels := []string{"inject:" + m.kind, "inject:" + m.kind + "/" + m.label}
+			if !strings.HasPrefix(bm.name, "gen") {
+				labels = append(labels, "hand-built-base")
+			}
+			recBoundary.Case(key, true, labels...)
 		}
 	}
 	if len(failures) > 0 {
